@@ -9,7 +9,7 @@
 //
 // Scenario: {"id":..,"target":"writer|exporter","comp":"none|gz|xz","kind":"file|fd",
 //            "chunks":[{"id":1,"n":bytes,"pat":"zero|text|rand","seed":s}],
-//            "steps":[{"op":"w","c":chunk id}|{"op":"rec","n":k}|{"op":"wb"}|{"op":"rot","export":b}],
+//            "steps":[{"op":"w","c":chunk id}|{"op":"rec","n":k}|{"op":"wb"}|{"op":"rot","export":b[,"to":name index]}],
 //            "pre":[output index whose final name exists before]}
 #include "common.h"
 #include "records.h"
@@ -18,6 +18,7 @@
 #include <sys/wait.h>
 #include <sys/syscall.h>
 #include <cerrno>
+#include <chrono>
 #include <memory>
 #include <map>
 
@@ -45,10 +46,17 @@ static bool tracked_fd(int fd, char* path, size_t cap) {
 }
 static void syslog_line(const char* call, const char* p, const char* q, long n, const char* res) {
     if (g_syslog < 0) return;
+    static long lines = 0;
+    if (++lines > 20000) return;
     char buf[1024];
     int len = snprintf(buf, sizeof(buf), "sys\t%s\t%s\t%s\t%ld\t%s\n", call, p + (strlen(p) > g_dir.size() ? g_dir.size() + 1 : 0),
                        q ? q + (strlen(q) > g_dir.size() ? g_dir.size() + 1 : 0) : "-", n, res);
     syscall(SYS_write, g_syslog, buf, len);
+}
+static long content_hash(const std::string& data) {      // 31-bit FNV-1a (fits a TLC integer)
+    uint32_t h = 2166136261u;
+    for (unsigned char c : data) { h ^= c; h *= 16777619u; }
+    return static_cast<long>(h & 0x7fffffffu);
 }
 static int output_index(const char* path) {
     const char* p = path + g_dir.size();
@@ -57,6 +65,7 @@ static int output_index(const char* path) {
 }
 static bool before_call(const char* path) {
     g_count++;
+    if (g_count > 100000) _exit(78);      // runaway: no scenario issues that many output system calls (an endless loop does)
     if (g_crash_at && g_count == g_crash_at) _exit(0);
     bool fail;
     if (g_recovering) fail = g_fault_persistent && g_fault_output >= 0 && output_index(path) == g_fault_output;
@@ -107,7 +116,9 @@ extern "C" int rename(const char* a, const char* b) {
     if (!g_hooks || strncmp(a, g_dir.c_str(), g_dir.size()) != 0) return syscall(SYS_rename, a, b);
     { bool r = g_recovering; g_recovering = true; bool p = g_fault_persistent; g_fault_persistent = false; before_call(a); g_recovering = r; g_fault_persistent = p; }   // a crash point; renames are not made to fail
     int r = syscall(SYS_rename, a, b);
-    syslog_line("rename", a, b, 0, r == 0 ? "ok" : "fail");
+    // reference run: remember what became visible under the final name (one of the complete outputs of that name)
+    long h = (r == 0 && !g_crash_at && !g_fault_at) ? content_hash(vh::read_file(b)) : 0;
+    syslog_line("rename", a, b, h, r == 0 ? "ok" : "fail");
     return r;
 }
 
@@ -157,7 +168,7 @@ struct Runner {
     const json& sc;
     std::string dir, comp, kind, target;
     int apilog;
-    int serial = 1;
+    int serial = 1, maxserial = 1;
     std::unique_ptr<BaseCborOutputWriter> wr;
     std::unique_ptr<CdnsExporter> ex;
     unsigned rec = 0;
@@ -195,8 +206,9 @@ struct Runner {
             }
         });
     }
-    void rotate(bool exp_block, const std::string& label) {
-        serial++;
+    void rotate(bool exp_block, const std::string& label, int to = 0) {
+        if (to > 0) serial = to; else serial = maxserial + 1;      // "to": rotation onto a name already used (also the one in use)
+        if (serial > maxserial) maxserial = serial;
         guarded(label, [&] {
             if (target == "writer") {
                 if (kind == "file") wr->rotate_output(name(serial));
@@ -230,7 +242,7 @@ struct Runner {
                 }
             }
             else if (op == "wb") guarded_block("wb", [&] { ex->write_block(); });
-            else if (op == "rot") rotate(st.value("export", false), "rot");
+            else if (op == "rot") rotate(st.value("export", false), "rot", st.value("to", 0));
             else if (op == "recover") recover();
             // after a failed block write the documented reaction is the recovery, at once
             if (block_exc && has_recover && op != "recover") { recover(); break; }
@@ -241,6 +253,8 @@ struct Runner {
 
 static void rm_rf(const std::string& d) { std::string c = "rm -rf '" + d + "'"; if (system(c.c_str())) {} }
 
+static long g_child_limit_ms = 120000;     // per child; after the reference run: 30 x its duration, at least 5 s
+static const int HUNG_STATUS = 99999;      // the child had to be killed: it did not terminate
 struct ChildResult { int status; std::vector<std::string> sys; /* ordered log: api and sys lines */ int nsys = 0; };
 
 static ChildResult run_child(const json& sc, const std::string& dir, int crash_at, int fault_at, bool persistent, int fkind,
@@ -266,7 +280,19 @@ static ChildResult run_child(const json& sc, const std::string& dir, int crash_a
         _exit(0);
     }
     ChildResult res;
-    waitpid(pid, &res.status, 0);
+    // a scenario that does not end (an endless loop in the output stack) is an outcome, not a reason to wait for ever
+    {
+        const long limit_ms = g_child_limit_ms;
+        long waited = 0;
+        for (;;) {
+            pid_t w = waitpid(pid, &res.status, WNOHANG);
+            if (w == pid) { if (WIFEXITED(res.status) && WEXITSTATUS(res.status) == 78) res.status = HUNG_STATUS; break; }
+            if (w < 0) { res.status = HUNG_STATUS; break; }
+            if (waited >= limit_ms) { kill(pid, SIGKILL); waitpid(pid, &res.status, 0); res.status = HUNG_STATUS; break; }
+            usleep(waited < 200 ? 1000 : 10000);
+            waited += waited < 200 ? 1 : 10;
+        }
+    }
     auto lines = [](const std::string& p) { std::vector<std::string> v; std::ifstream f(p); std::string l; while (std::getline(f, l)) v.push_back(l); unlink(p.c_str()); return v; };
     res.sys = lines(sl); lines(al);
     for (auto& l : res.sys) if (l.rfind("sys\t", 0) == 0) res.nsys++;
@@ -346,7 +372,12 @@ static void do_scenario(const std::string& mode, const json& sc)
     for (auto& c : chunks) chunkdesc.push_back({{"id", c.first}, {"n", c.second.size()}});
 
     // reference run: no crash, no fault
+    g_child_limit_ms = 120000;
+    auto t0 = std::chrono::steady_clock::now();
     ChildResult ref = run_child(sc, dir, 0, 0, false, 0, chunks);
+    long ref_ms = std::chrono::duration_cast<std::chrono::milliseconds>(std::chrono::steady_clock::now() - t0).count();
+    g_child_limit_ms = std::max(5000L, 30 * ref_ms);
+    int hung = 0;                          // two children that had to be killed are enough for one scenario
     auto refsnap = snapshot(dir);
     json refouts = describe_outputs(refsnap, sc, dir, chunks);
     vh::trace().emit({{"e", "R"}, {"mode", mode}, {"scn", sc}, {"status", ref.status},
@@ -357,13 +388,14 @@ static void do_scenario(const std::string& mode, const json& sc)
     if (mode == "c15") {
         for (int k = 1; k <= K; k++) {
             ChildResult r = run_child(sc, dir, k, 0, false, 0, chunks);
+            if (r.status == HUNG_STATUS && ++hung > 2) break;
             auto snap = snapshot(dir);
             json files = json::array();
             for (auto& kv : snap) {
                 bool pre = kv.second.rfind("PRE-EXISTING-CONTENT-", 0) == 0;
                 auto it = refsnap.find(kv.first);
                 files.push_back({{"name", kv.first}, {"final", is_final(kv.first)}, {"old", pre}, {"size", kv.second.size()},
-                                 {"same", it != refsnap.end() && it->second == kv.second}});
+                                 {"same", it != refsnap.end() && it->second == kv.second}, {"h", content_hash(kv.second)}});
             }
             vh::trace().emit({{"e", "K"}, {"k", k}, {"nsys", r.nsys}, {"files", files}});
         }
@@ -373,7 +405,9 @@ static void do_scenario(const std::string& mode, const json& sc)
                 for (int k = 1; k <= K; k++) {
                     if (syscalls[k - 1].rfind("rename", 0) == 0) continue;     // renames are not made to fail
                     if (fk == 1 && (k % 3) != 0) continue;                       // EIO: every third point
+                    if (hung >= 2) continue;
                     ChildResult r = run_child(sc, dir, 0, k, persistent != 0, fk, chunks);
+                    if (r.status == HUNG_STATUS) hung++;
                     auto snap = snapshot(dir);
                     vh::trace().emit({{"e", "F"}, {"k", k}, {"persistent", persistent != 0}, {"fault", fk == 0 ? "ENOSPC" : fk == 1 ? "EIO" : "short"},
                                       {"status", r.status}, {"log", sys_json(r.sys)},
